@@ -2,7 +2,7 @@
    Only statements, each closed by `exact <lemma>`, its assumptions printed, and Examples
    showing that the hypotheses are met by non-trivial values. *)
 From Pybtex Require Import Base.Prelude Base.PyChar Base.PyStr Model.RtTypes Model.Backends
-  Proofs.Backends Proofs.BackendsMd Proofs.BackendsHtml Proofs.BackendsLatex Proofs.BackendsDepth Proofs.BackendsTotal Proofs.BackendsHtmlWf Proofs.BackendsMdTree Proofs.BackendsDoc Proofs.BackendsEx.
+  Proofs.Backends Proofs.BackendsMd Proofs.BackendsHtml Proofs.BackendsLatex Proofs.BackendsDepth Proofs.BackendsTotal Proofs.BackendsHtmlWf Proofs.BackendsMdTree Proofs.BackendsDoc Proofs.BackendsCodec Proofs.BackendsEx.
 Local Open Scope N_scope.
 
 (* ---- plain text: the output is the text with symbols replaced by the back end's plain
@@ -146,6 +146,22 @@ Theorem from_latex_carries_depths : forall v t, parse_latex v = Ok t -> sp t = t
 Proof. exact parse_latex_spec. Qed.
 Print Assumptions from_latex_carries_depths.
 
+(* the same round trip under hypotheses about the codec instead of the identity codec: on a value
+   alphabet `alpha` the encoder is a homomorphism and is undone by the decoder, and the decoder leaves
+   the braces that follow encoded text in place (so neither moves a character across a brace).  Then Text.from_latex(v).render(latex) decodes to
+   the plain linearisation of the tree, and every character of the decoded value keeps its depth.
+   The hypotheses are sampled against latexcodec on every run (extra check codec_hypotheses_sweep). *)
+Theorem latex_depth_roundtrip_codec : forall (enc dec : str -> str) (alpha : char -> bool) T,
+  enc [] = [] ->
+  (forall a b, forallb alpha a = true -> forallb alpha b = true -> enc (a ++ b) = enc a ++ enc b) ->
+  (forall s, forallb alpha s = true -> dec (enc s) = s) ->
+  (forall a b r, forallb alpha a = true -> is_brace b = true -> dec (enc a ++ b :: r) = dec (enc a) ++ b :: dec r) ->
+  forall v, balanced (dec v) -> (forall c, In c (dec v) -> alpha c = true \/ is_brace c = true) ->
+  exists t out, from_latex dec v = Ok t /\ render enc T BLatex t = Ok out /\
+    dec out = lin (fun s => s) t /\ depth_profile (dec out) = depth_profile (dec v).
+Proof. exact latex_depth_roundtrip_codec_holds. Qed.
+Print Assumptions latex_depth_roundtrip_codec.
+
 (* ---- whole documents (BaseBackend.write_to_stream) ----
    every back end: the document is the prologue, then one write_entry per entry, in order, around
    the rendering of that entry's text, then the epilogue *)
@@ -257,3 +273,11 @@ Example document_example :
     Ok ((lit "<dt>A1</dt>") ++ [c_nl] ++ (lit "<dd><em>x&amp;y</em></dd>") ++ [c_nl] ++
         (lit "<dt>Bb2</dt>") ++ [c_nl] ++ (lit "<dd>z</dd>") ++ [c_nl] ++ (lit "</dl></body></html>") ++ [c_nl]).
 Proof. vm_compute. auto. Qed.
+Example codec_hypotheses_satisfiable :
+  let id := fun s : str => s in let alpha := fun c => negb (is_brace c) in
+  (forall s, skeleton (id s) = skeleton s) /\ id [] = [] /\
+  (forall a b, forallb alpha a = true -> forallb alpha b = true -> id (a ++ b) = id a ++ id b) /\
+  (forall s, forallb alpha s = true -> id (id s) = s) /\
+  (forall a b r, forallb alpha a = true -> is_brace b = true -> id (id a ++ b :: r) = id (id a) ++ b :: id r) /\
+  (forall c, alpha c = true -> is_brace c = false).
+Proof. exact codec_hyps_identity. Qed.
